@@ -582,6 +582,8 @@ func main() {
 	tm("pairs")
 	pendingAll(r)
 	tm("pending")
+	dryFailAll(r)
+	tm("dry-fail")
 	resumeAll(r)
 	tm("resume")
 	scenarioSequential(r, in, r.Pick(24, 96))
@@ -596,6 +598,7 @@ func main() {
 	r.Finish("one Streamable session, listening streams opened / closed / reopened by a raw peer; schedules enumerated at the instrumented points get.H (new handler before the table store), get.T (after it), get.E (old handler woke, before its table delete): send placed after 'new headers received' in every gap {before store, after store before old delete, after old delete, old stream closed by its peer before/while the new one registers}; a writer parked inside an event on the old stream (holding its write lock) while the old peer leaves and the successor registers, alone and with 1-3 further notifications / server requests queued on the old stream's lock behind the old handler (stale stream held across the reconnect); sequential reopen chains; free-running reconnect storms with seeded delays at the three points and concurrent senders. Every send made after the new stream's headers were received must succeed and arrive on that stream only. "+
 		"HOW A STREAM IS OPENED is a dimension of every family: plain GET, or with a Last-Event-ID that is the id of the event the session's client received last / an id received earlier (stale) / an id never issued (garbage: own format, numeric, 2000 digits, odd characters); the ids are real (every session first gets a stream on which two notifications are delivered and read). H-T, E, writer-inside-old run for all 16 (old, new) combinations, reopen chains rotate the mode against predecessor open / closed by its peer, the storms draw it per reconnect (half of them 'last'), the overlap schedules run all-plain, all-last and seeded-mixed. resume-superseded (each on its own server): [predecessor open / closed by its peer;] stream A (any mode) registers and is parked at get.T — headers at the peer, post-registration (resumption) step not run —, stream B (any mode) registers, superseding A, and is parked at get.T too; then B runs to completion and A continues / A continues while B is still parked, then B / B completes, is closed by its own peer and has removed itself, A continues, a third stream opens; judged sends after every step and one racing with A's continuation; oracle of the overlap schedules. The stream/resumed notices a server writes on a resumed stream are counted, never taken for a delivery (deliveries are matched by nonce). "+
 		"PENDING ACROSS A LATE TEARDOWN (pending.go, each schedule on its own server): the teardown of a replaced stream A is delayed past the registration of its successor B by {A's raw-TCP peer stops reading inside a 16 MB event so that the event's writer blocks in the socket holding A's write lock — released by the peer reading on (A then ends with the server's end of stream) or dropping the connection; a writer of A parked by the yield controller at sse.write.afterid / sse.write.beforeterm while all other writers pass the point, A replaced while its peer is connected / after its peer left; A's handler parked at get.E, same two variants} x (A, B) open modes; once B's headers are received and A's handler is known to have woken, the server issues SendRequest (own id / generated id, custom method) and ListRoots from a tool handler (roots/list): each frame must arrive on B; the delay is checked to be still in force, released, the teardown observed (A ended by the server; peer gone: writer returned + pause); only then the client answers by POST; further requests are issued after the teardown and after B was itself replaced by C resuming with the last event id received on B. Every such call must return the client's answer (no error, no nil result, not before the answer was posted); notifications go to the live stream only and it stays registered. Distinct = pending|(delay, variant, open modes)|API@phase answered. "+
+			"SENDS THAT CANNOT SUCCEED ON THE NEWEST STREAM (dryfail.go, each schedule on its own server): the session's live stream — the first stream the session ever opened, or one reopened 1..n times (predecessor replaced while open / closed by its peer first, any open mode; further reopens between the sends) — is given, in seeded order, sends whose payload json.Marshal rejects (NaN, +Inf, -Inf, chan, func, cyclic map, complex, failing Marshaler, nested NaN; as params of SendRequest own-id / generated-id, as the request ID, as params of SendNotification and BroadcastNotification), SendRequest / ListRoots-in-a-tool-handler under an already cancelled context, and the same calls under a 60 ms deadline that the client does not answer (or answers after the call returned). The outcome of these calls is counted, not judged. After EACH of them: a notification must succeed and arrive on the live stream, a broadcast must not fail and must arrive on it, 1-3 server requests (SendRequest own-id / generated-id, ListRoots) must go out on it and return the client's answer, exactly one stream is registered, and the server has not ended the live stream itself. Distinct = dry-fail|kind of failing send|(position of the live stream in the session, how it replaced its predecessor, open mode). "+
 		"Several streams of one session set up at the same time (each schedule on its own server): [stream A open;] 2/3/4 GETs parked together at get.H, released in enumerated orders one by one (next release after the previous headers) or in a burst, superseded handlers optionally parked at get.T/get.E and let go in a seeded order, judged sends between the steps and unjudged notifications / server requests in flight; seeded walks over {start a GET, release a parked GET, let a parked handler go, send}; free-running rounds of 2-4 concurrent openers with seeded delays. After all set-ups finished and all headers were received: a send succeeds and arrives on exactly one stream which no other opened stream clearly follows (X clearly precedes Y when X's headers were received before Y was started; any single winner among truly concurrent opens), every other opened stream was ended by the server, exactly one stream is registered, a further send arrives on the survivor only. Distinct = (scenario incl. open modes, gap) judged, resp. (overlap / resume class[, walk pattern]) judged.",
 		[]string{"pending.go: a server request is judged only if it was issued after the live stream's response headers had been received; requests that went out on the replaced stream are not judged; a call that ends with its context (25 s) is a watchdog and makes the schedule inconclusive; a delay that could not be set up or did not last until the requests were out makes the schedule inconclusive (counted in pending_schedules_inconclusive)", "a GET with Last-Event-ID is issued only with an id taken from an event really received on an earlier stream of the session (or, for 'garbage', one of a fixed list of never-issued values); when the events carried no id the GET is plain and counted as such", "a schedule that the implementation makes impossible (headers not visible before the table store) is recorded as not realisable, not as a failure", "delivery is awaited up to 5 s on loopback (10 s in the overlap schedules)", "a superseded stream that stays open is reported only when a later send/deliver cycle on the owning stream completed meanwhile (15 s watchdog first); an open that merely answers slowly makes the schedule inconclusive"})
 }
